@@ -1,13 +1,15 @@
 (* Prop_C12.v — property C12: accessor mode changes only the wrapping of results.
    On the specification (which the implementation model refines exactly, C01_refines_spec): for a
    tree whose function parameters and filter operands carry no accessor flag (acc_clean — what
-   updateAccessorMode guarantees; the harness evaluates it on every tree the parser model builds and
-   also checks that erasing the flags of the accessor-mode tree gives the plain-mode tree), erasing
+   updateAccessorMode guarantees: C12_parsed_trees_acc_clean proves it for EVERY tree the parser model
+   returns, by the stack-effect checker whose item types carry the flag discipline; the harness also
+   evaluates it on every parsed tree and checks that erasing the flags of the accessor-mode tree gives the
+   plain-mode tree — that last link between the two parses is not a theorem), erasing
    every accessor flag selects the same cursors in the same order: one result per value, each yielding
    that value, hence the same failures; function parameters and filter operands are the very same
    subtrees in both modes (erase is the identity on them), so user functions and filters see the same
    plain values. *)
-From JP Require Import Eval WF Spec AccDefs Refine1 SpecAcc.
+From JP Require Import Peg Grammar Text Tree Actions Eval WF Spec AccDefs Refine1 SpecAcc StackRules.
 
 Theorem C12_parity : forall ffun afun regex_match t doc, acc_clean t = true ->
   map plain (spec_results ffun afun regex_match (erase t) doc) = map plain (spec_results ffun afun regex_match t doc).
@@ -25,3 +27,15 @@ Proof. exact (proj1 (proj2 (proj2 (proj2 (proj2 erase_id))))). Qed.
 Theorem C12_parameters_unchanged : forall n, all_false n = true -> erase n = n.
 Proof. exact (proj1 erase_id). Qed.
 Print Assumptions C12_operands_unchanged.
+
+(* the hypothesis of C12_parity holds for every tree Parse returns, in either mode *)
+Theorem C12_parsed_trees_acc_clean : forall cfg parse_float regex_ok input t,
+  parse_with cfg parse_float regex_ok jsonpath_grammar input = ParseOk t -> acc_clean t = true.
+Proof. exact parse_builds_acc_clean. Qed.
+Print Assumptions C12_parsed_trees_acc_clean.
+
+Theorem C12_parity_of_parsed_trees : forall cfg parse_float regex_ok ffun afun regex_match input t doc,
+  parse_with cfg parse_float regex_ok jsonpath_grammar input = ParseOk t ->
+  map plain (spec_results ffun afun regex_match (erase t) doc) = map plain (spec_results ffun afun regex_match t doc).
+Proof. intros. apply parity_values. eapply parse_builds_acc_clean. eassumption. Qed.
+Print Assumptions C12_parity_of_parsed_trees.
